@@ -64,7 +64,7 @@ def _case(draw, tier):
     return dict(kind=kind, device=dev, field=fld, currents=cur, nsteps=nsteps,
                 # mostly time steps at the stability scale; one case in five uses steps 1e-6..1e-3 of it, where the state changes
                 # by less than any "nothing has changed" tolerance per step (yet every step is a step)
-                options=dict(dt_c=draw(gen.rf(0.05, 0.4)) * (1.0 if draw(st.integers(0, 4)) else draw(gen.logu(-6, -3))), dtmax_c=0.45, adaptive=adaptive, adaptive_window=draw(st.integers(1, 5)),
+                options=dict(dt_c=draw(gen.rf(0.05, 0.4)) * (1.0 if draw(st.integers(0, 4)) > (1 if kind == "resume" else 0) else draw(gen.logu(-6, -3))), dtmax_c=0.45, adaptive=adaptive, adaptive_window=draw(st.integers(1, 5)),
                              include_screening=scr, screening_tolerance=1e-3, field_units=fu, current_units=cu,
                              terminal_psi=draw(st.sampled_from([0.0, 0.0, None, [0.3, 0.4]]))), **extra)
 
